@@ -463,7 +463,27 @@ def rule_A(run, prog):
         it = Interp(prog, lenient=False)
         it.stack.append(f)
         env = {"self": selfo, "KF": KF}
-        it.exec_body([loops[0]], env)
+        # straight-line statements between the call that gives KF and the loop nest that define further values from KF
+        # (a trimmed KF, sums of rates taken at once with numpy.sum(KF, axis=k)) are interpreted too
+        from ..loader import parents_map
+        pm_ = parents_map(f.node)
+        blk_ = None
+        for fld in ("body", "orelse", "finalbody"):
+            b_ = getattr(pm_.get(loops[0]), fld, None)
+            if isinstance(b_, list) and loops[0] in b_:
+                blk_ = b_[:b_.index(loops[0])]
+        derived = {"KF"}
+        prelude = []
+        for st_ in (blk_ or []):
+            if isinstance(st_, ast.Assign) and len(st_.targets) == 1 and isinstance(st_.targets[0], ast.Name):
+                if isinstance(st_.value, ast.Call) and st_.targets[0].id == "KF" and \
+                        not any(isinstance(n_, ast.Name) and n_.id == "KF" for n_ in ast.walk(st_.value)):
+                    derived, prelude = {"KF"}, []       # KF as returned by the rate routine: start here
+                    continue
+                if any(isinstance(n_, ast.Name) and n_.id in derived for n_ in ast.walk(st_.value)):
+                    prelude.append(st_)
+                    derived.add(st_.targets[0].id)
+        it.exec_body(prelude + [loops[0]], env)
         it.stack.pop()
         t = ["t"] * trank
         idx = tuple(Array.ph(k) for k in range(4 + trank))
